@@ -37,6 +37,20 @@ fn reported_year(y: i64) -> (i64, bool) {
     }
 }
 
+const WEEKDAYS: [&str; 7] = ["Ahad", "Ithnain", "Thulatha", "Arbiaa", "Khamees", "Jumaah", "Sabt"];
+const MONTHS: [&str; 12] = [
+    "Muharram", "Safar", "Rabia Awal", "Rabia Thani", "Jumada Awal", "Jumada Thani", "Rajab", "Shaaban", "Ramadan", "Shawwal",
+    "Dhul Qiddah", "Dhul Hijjah",
+];
+
+/// the printed form "<weekday>, <month> <day>, <year> A.H.|B.H." from the independent calendar
+pub fn expected_display(rd: i64) -> String {
+    let (y, m, d) = islamic_from_fixed(rd);
+    let (ry, pre) = reported_year(y);
+    let wd = rd.rem_euclid(7) as usize; // day number 1 = Monday: 0 = Sunday
+    format!("{}, {} {}, {} {}", WEEKDAYS[wd], MONTHS[(m - 1) as usize], d, ry, if pre { "B.H." } else { "A.H." })
+}
+
 fn observe(rd: i64) -> Result<(i64, i64, i64, bool, i64, String), String> {
     let d = date_of_rd(rd);
     catch_unwind(AssertUnwindSafe(|| {
@@ -59,9 +73,9 @@ fn one(ctx: &mut Ctx, rd: i64) {
             if (oy, om, od, opre, owd) != (ry, m, d, pre, civil_wd) {
                 ctx.fail(input, format!("{} {} {} pre={} weekday={}", oy, om, od, opre, owd), want);
             } else {
-                let suffix = if pre { "B.H." } else { "A.H." };
-                if !text.ends_with(suffix) || !text.contains(&format!(" {}, {} ", d, ry)) {
-                    ctx.fail(input, format!("printed `{}`", text), want);
+                let want_text = expected_display(rd);
+                if text != want_text {
+                    ctx.fail(input, format!("printed `{}`", text), format!("`{}`", want_text));
                 }
             }
         }
